@@ -85,6 +85,21 @@ class OpenAtom:
         return False
 
 
+def _get_substruct_matches(mol, pattern):
+    """
+    Substructure matches of a token, that also agree in the isotope labels.
+    (RDKit lets an atom without isotope label in the pattern match any isotope.)
+    """
+    return tuple(
+        match
+        for match in mol.GetSubstructMatches(pattern)
+        if all(
+            mol.GetAtomWithIdx(idx).GetIsotope() == pattern.GetAtomWithIdx(k).GetIsotope()
+            for k, idx in enumerate(match)
+        )
+    )
+
+
 class PossibleMatch:
     def __init__(self, mol, big, substructure, token, initial_prob=1.0):
         self._big = big
@@ -103,7 +118,7 @@ class PossibleMatch:
         self._element_weights = [RememberAdd(0.0) for _ in range(self._Nelements)]
         self._open_atoms = []
 
-        possible_substructures = mol.GetSubstructMatches(pattern)
+        possible_substructures = _get_substruct_matches(mol, pattern)
         if substructure in possible_substructures:
             open_atoms = self._find_open_atoms(substructure, token)
             self._add_new_open_atoms(open_atoms)
@@ -290,7 +305,7 @@ class PossibleMatch:
             new_full = []
             pattern = Chem.MolFromSmiles(token.generate_smiles_fragment(), params.removeHs)
 
-            for substructure in match._mol.GetSubstructMatches(pattern):
+            for substructure in _get_substruct_matches(match._mol, pattern):
                 open_atom_idx = id_open_atom(substructure, match, atom.new_atom)
                 if open_atom_idx is not None:
                     possible_bd = id_bond_descriptor(
@@ -382,7 +397,7 @@ def get_prob(smiles, big_mol):
     starting_token, starting_prob = get_starting_tokens(smiles, big_mol)
     for token, prob in zip(starting_token, starting_prob):
         pattern = Chem.MolFromSmiles(token.generate_smiles_fragment(), params.removeHs)
-        possible_substructures = mol.GetSubstructMatches(pattern)
+        possible_substructures = _get_substruct_matches(mol, pattern)
         for substructure in possible_substructures:
             match = PossibleMatch(mol, big_mol, substructure, token, prob)
             if match.possible:
